@@ -401,16 +401,19 @@ async fn run_script(c: &Value) -> Value {
                         let n = u64_of(&op[2]);
                         let off = shared.lock().unwrap().slots[&slot].woff;
                         let data: Vec<u8> = (off..off + n).map(|k| data_byte(slot, k)).collect();
+                        {
+                            // recorded first: a pending read of the peer may complete while write_all is awaited
+                            let mut sh = shared.lock().unwrap();
+                            let sl = sh.slots.get_mut(&slot).unwrap();
+                            sl.woff += n;
+                            sl.written.extend_from_slice(&data);
+                        }
                         let r = tokio::time::timeout(
                             std::time::Duration::from_secs(20),
                             w.write_all(ctx, &data),
                         )
                         .await
                         .expect("write_all blocked although the transport is unbounded");
-                        let mut sh = shared.lock().unwrap();
-                        let sl = sh.slots.get_mut(&slot).unwrap();
-                        sl.woff += n;
-                        sl.written.extend_from_slice(&data);
                         r
                     } else {
                         tokio::time::timeout(std::time::Duration::from_secs(20), w.flush(ctx))
